@@ -2,12 +2,15 @@ import PhpVerif.Gen.Schema
 import PhpVerif.Gen.PrinterTab
 import PhpVerif.Model.Printer
 import PhpVerif.Lemmas.Rows
+import PhpVerif.Lemmas.Render
+import PhpVerif.Lemmas.Printer
 /-
 C15 — The printer emits every token and child of every node kind once, in order.
 
 Tie: T-gen (printer.go per-kind bodies, node.go schema); the helper bodies
 (printToken, printSeparatedList, the alt block, write) are hand-modelled in
-Model/Printer.lean / Model/Render.lean and tied T-diff through the driver.
+Model/Printer.lean / Model/Render.lean and tied T-diff through the driver
+(harness diff-printer: `render (chunks realCfg false t)` vs the real printer on the same tree).
 -/
 namespace PhpVerif.C15
 open PhpVerif PhpVerif.Gen
@@ -113,5 +116,55 @@ theorem printer_order_is_field_order : printerOrderOK = true := by decide +kerne
 theorem printer_order_row (k : Nat) : fieldOrder (printF k) = printedIdx (sch k) := by
   have hk := allRows2_spec (fun sorts ops => fieldOrder ops == printedIdx sorts) _ _ printer_order_is_field_order k
   simpa [printF, sch] using hk
+
+end PhpVerif.C15
+
+namespace PhpVerif.C15
+open PhpVerif PhpVerif.Gen
+
+def litBytes (id : Nat) : Bytes :=
+  match printerLits.find? (·.1 == id) with
+  | some (_, b) => b.map (fun n => UInt8.ofNat n)
+  | none => []
+
+/-- the printed bytes of a tree (M-PRINT then M-RENDER over the regenerated table) -/
+def printBytes (t : Tree) : Bytes := render litBytes (chunks realCfg false t)
+
+/-- BYTE LEVEL, every tree, every printer state: the output is the bytes of the write sequence in
+    order — token texts (free-floating first), canonical lexemes, the node's own value — each
+    preceded by nothing, `<?php `, one blank, both, or `?>`: never any other text. -/
+theorem print_is_items_with_glue (t : Tree) :
+    ∃ gs : List Bytes, gs.length = (chunks realCfg false t).length ∧ (∀ g ∈ gs, g ∈ glueSet) ∧
+      printBytes t = (gs.zip (chunks realCfg false t)).flatMap (fun p => p.1 ++ itemBytes litBytes p.2) := by
+  obtain ⟨gs, h1, h2, h3⟩ := foldl_out litBytes (chunks realCfg false t) {}
+  exact ⟨gs, h1, h2, by simpa [printBytes, render] using h3⟩
+
+theorem dfltEval_congr (toks : List (List Tok)) (vals : List (Option Bytes)) (kids kids' : List (List Tree))
+    (kidNil : Nat → Bool) (h : ∀ f, (fieldAt kids f).isEmpty = (fieldAt kids' f).isEmpty) (d : Dflt) :
+    dfltEval toks vals kids kidNil d = dfltEval toks vals kids' kidNil d := by
+  induction d with
+  | none => rfl
+  | lit id => rfl
+  | own f => rfl
+  | ifNode f d ih => simp [dfltEval, present, h f, ih]
+  | ifNodeList f d ih => simp [dfltEval, ih]
+  | ifNotNodeList f d ih => simp [dfltEval, ih]
+  | ifTok f a b iha ihb => simp [dfltEval, iha, ihb]
+  | ifNotTok f d ih => simp [dfltEval, ih]
+
+/-- LOCALITY: what a node's statements write depends on its children only through the children's
+    own write sequences (`res`) and through which child slots are filled; so replacing a subtree
+    changes exactly the items that subtree contributes. -/
+theorem opItems_congr (toks : List (List Tok)) (vals : List (Option Bytes)) (kids kids' : List (List Tree))
+    (kidNil : Nat → Bool) (res : List (List (List Item × List Item)))
+    (h : ∀ f, (fieldAt kids f).isEmpty = (fieldAt kids' f).isEmpty) (op : POp) :
+    opItems toks vals kids kidNil res op = opItems toks vals kids' kidNil res op := by
+  cases op <;> simp [opItems, dfltEval_congr toks vals kids kids' kidNil h]
+
+/-- non-vacuity: a two-token Root prints its tokens; a token-less Nullable prints `?` -/
+example : printBytes (.mk 0 0 none [[], [], [{ uid := 1, id := 0, val := [65], ff := [{ id := 0, val := [32] }] }]] [] [] []) = [32, 65] := by
+  decide +kernel
+example : printBytes (.mk 1 0 none [] [] [] []) = [60, 63, 112, 104, 112, 32, 63] := by
+  decide +kernel
 
 end PhpVerif.C15
